@@ -53,8 +53,10 @@ def evalCase (lines : List String) : String × Bool × Bool :=
     match vs with
     | [] => none
     | (name, link, leak, fin) :: rest =>
-      let st := replay caseLines link leak fin
-      if st.bad.isNone then some (name, st) else firstOk rest
+      let st := replay caseLines link leak fin true
+      if st.bad.isNone then some (name, st) else
+      let st := replay caseLines link leak fin false
+      if st.bad.isNone then some (name ++ "-writer", st) else firstOk rest
   let variants : List (String × Cfg × Bool × Bool) :=
     [("fixed:all", Cfg.fixed, true, true), ("faithful", Cfg.faithful, false, false), ("fixed:rand", Cfg.fixed, false, false),
      ("fixed:leak+fin", Cfg.faithful, true, true), ("fixed:rand+leak", Cfg.fixed, true, false), ("fixed:rand+fin", Cfg.fixed, false, true),
